@@ -23,6 +23,11 @@ type FnFlags = unsafe extern "C" fn(*const ParsedPacket) -> u32;
 type FnAdd = unsafe extern "C" fn(*mut ParsedPacket, *mut *const CErr, *const c_char) -> c_int;
 type FnRawName = unsafe extern "C" fn(*mut [u8; 256], *mut size_t, *mut *const CErr, *const c_char, size_t) -> c_int;
 type FnRename = unsafe extern "C" fn(*mut ParsedPacket, *mut *const CErr, *const u8, size_t, *const u8, size_t, bool) -> c_int;
+type ItPtr = *mut std::ffi::c_void;
+type FnCb = unsafe extern "C" fn(*mut std::ffi::c_void, ItPtr) -> bool;
+type FnIter = unsafe extern "C" fn(*mut ParsedPacket, FnCb, *mut std::ffi::c_void);
+type FnDelete = unsafe extern "C" fn(ItPtr, *mut *const CErr) -> c_int;
+type FnSetName = unsafe extern "C" fn(ItPtr, *mut *const CErr, *const c_char, size_t, *const u8, size_t) -> c_int;
 
 pub struct Table {
     pub error_description: FnErrDesc,
@@ -31,6 +36,9 @@ pub struct Table {
     pub add_to_answer: FnAdd,
     pub raw_name_from_str: FnRawName,
     pub rename: FnRename,
+    pub iter_answer: FnIter,
+    pub delete: FnDelete,
+    pub set_name: FnSetName,
 }
 
 pub fn table() -> Table {
@@ -43,6 +51,9 @@ pub fn table() -> Table {
             add_to_answer: crate::capi::cast_fn(t.add_to_answer),
             raw_name_from_str: crate::capi::cast_fn(t.raw_name_from_str),
             rename: crate::capi::cast_fn(t.rename_with_raw_names),
+            iter_answer: crate::capi::cast_fn(t.iter_answer),
+            delete: crate::capi::cast_fn(t.delete),
+            set_name: crate::capi::cast_fn(t.set_name),
         }
     }
 }
@@ -164,30 +175,105 @@ impl ThreadState {
     }
 }
 
-/// The description each failure kind produces, obtained single-threaded.
-pub fn expected_descriptions() -> Result<Vec<String>, String> {
+/// What the native API says for each failure kind (used only to tell whether two kinds *should* read alike).
+pub fn native_descriptions() -> Vec<String> {
+    let mut small = small_packet();
+    let mut big = big_packet();
+    let rn = |n: &[u8]| r#gen::raw_name_from_str(n, None).err().map(|e| e.to_string()).unwrap_or_default();
+    let long: Vec<u8> = (0..260).map(|i| if i % 20 == 19 { b'.' } else { b'y' }).collect();
+    let src = [1u8, b'q', 7, b'e', b'x', b'a', b'm', b'p', b'l', b'e', 0];
+    vec![
+        rn(b"a..b"),
+        rn(&[b'x'; 70]),
+        rn(&long),
+        rn(&[b'a', 0xe9, b'b']),
+        small.insert_rr_from_string(Section::Answer, "this is not a record").err().map(|e| e.to_string()).unwrap_or_default(),
+        small.insert_rr_from_string(Section::Question, "second.example. 0 IN A 1.2.3.4").err().map(|e| e.to_string()).unwrap_or_default(),
+        big.insert_rr_from_string(Section::Answer, &format!("big.example. 0 IN TXT \"{}\"", "z".repeat(600))).err().map(|e| e.to_string()).unwrap_or_default(),
+        small.rename_with_raw_names(&src[..0], &src, true).err().map(|e| e.to_string()).unwrap_or_default(),
+    ]
+}
+
+pub enum Setup {
+    Ok(Vec<String>),
+    /// the table hands out, for one failure, the description of ANOTHER failure (they differ natively)
+    Stale(String),
+    Blocked(String),
+}
+
+/// The description each failure kind produces through the table, obtained single-threaded.
+pub fn expected_descriptions() -> Setup {
     let mut st = ThreadState::new();
     let mut v = vec![];
     for k in 0..N_KINDS {
         let r = st.fail(k);
         if r != -1 {
-            return Err(format!("failure kind {} did not fail (returned {})", k, r));
+            return Setup::Blocked(format!("failure kind {} did not fail (returned {})", k, r));
         }
         match st.read() {
             Some(d) if !d.is_empty() => v.push(d),
-            _ => return Err(format!("failure kind {} left no description", k)),
+            _ => return Setup::Blocked(format!("failure kind {} left no description", k)),
         }
         // fresh small packet for the next kind (kind 5 must see exactly one question)
         st.small = small_packet();
     }
+    let native = native_descriptions();
     for i in 0..v.len() {
         for j in 0..i {
             if v[i] == v[j] {
-                return Err(format!("failure kinds {} and {} share the description {:?}", i, j, v[i]));
+                if native[i] != native[j] && !native[i].is_empty() && !native[j].is_empty() {
+                    return Setup::Stale(format!(
+                        "one thread, failure kind {} then kind {}: both read {:?}, but the failures differ (natively {:?} and {:?})",
+                        j, i, v[i], native[j], native[i]
+                    ));
+                }
+                return Setup::Blocked(format!("failure kinds {} and {} share the description {:?}", i, j, v[i]));
             }
         }
     }
-    Ok(v)
+    Setup::Ok(v)
+}
+
+/// A failing iterator call made by a helper thread while the iterating thread waits in its callback.
+pub struct HelperCtx {
+    pub t: Table,
+    /// 0 = delete twice (the second one reports a void record); 1 = set_name with an empty label
+    pub mode: usize,
+    pub helper_ret: c_int,
+    pub helper_read: Option<String>,
+}
+
+unsafe extern "C" fn cb_helper(ctx: *mut std::ffi::c_void, it: ItPtr) -> bool {
+    let c = &mut *(ctx as *mut HelperCtx);
+    let (del, setn, errd, mode) = (c.t.delete, c.t.set_name, c.t.error_description, c.mode);
+    let itp = it as usize;
+    let got = std::thread::scope(|s| {
+        s.spawn(move || {
+            let it = itp as ItPtr;
+            let mut err: *const CErr = std::ptr::null();
+            let r = if mode == 0 {
+                let mut e0: *const CErr = std::ptr::null();
+                del(it, &mut e0);
+                del(it, &mut err)
+            } else {
+                let bad = b"a..b";
+                setn(it, &mut err, bad.as_ptr() as *const c_char, bad.len(), std::ptr::null(), 0)
+            };
+            if r != -1 || err.is_null() {
+                return (r, None);
+            }
+            let p = errd(err);
+            if p.is_null() {
+                return (r, None);
+            }
+            (r, Some(CStr::from_ptr(p).to_string_lossy().into_owned()))
+        })
+        .join()
+        .unwrap_or((0, None))
+    });
+    c.helper_ret = got.0;
+    c.helper_read = got.1;
+    true
 }
 
 #[derive(Clone, Copy, Debug, PartialEq, Eq)]
@@ -284,8 +370,13 @@ pub fn run_schedule(scripts: &[Vec<Step>], order: &[usize], want: &[String]) -> 
 
 pub fn run(ctx: &mut Ctx) {
     let want = match expected_descriptions() {
-        Ok(w) => w,
-        Err(e) => {
+        Setup::Ok(w) => w,
+        Setup::Stale(e) => {
+            ctx.evaluations += 1;
+            ctx.violation("C16", "single-thread|description-of-another-failure".into(), e, &[]);
+            return;
+        }
+        Setup::Blocked(e) => {
             // a failing call that does not fail / leaves no description is C15's business; here it blocks the check
             ctx.count("harness_error");
             ctx.notes.push(format!("harness: C16 setup: {}", e));
@@ -384,6 +475,56 @@ pub fn run(ctx: &mut Ctx) {
         }
     };
     check_observer(ctx, &mut observer, "after the forced schedules");
+    // (a') a failing iterator call made by a helper thread while the iterating thread waits in its callback: the
+    //      helper reads its own failure, the iterating thread's earlier description stays intact
+    for case in ctx.phase("callback-helper", if reduced { 4 } else { 64 }) {
+        ctx.begin_case(case);
+        let mode = (case % 2) as usize;
+        let k1 = 1 + (case as usize / 2) % (N_KINDS - 1);
+        // (on a thread of its own: this thread is the long-lived observer and must not fail again)
+        let (mine, kept, again, h_ret, h_read) = std::thread::spawn(move || {
+            let mut st = ThreadState::new();
+            st.fail(k1);
+            let mine = st.read();
+            let mut h = HelperCtx { t: table(), mode, helper_ret: 0, helper_read: None };
+            unsafe { (st.t.iter_answer)(&mut st.small, cb_helper, &mut h as *mut HelperCtx as *mut std::ffi::c_void) };
+            let kept = st.recheck();
+            let again = st.read();
+            (mine, kept, again, h.helper_ret, h.helper_read)
+        })
+        .join()
+        .unwrap_or((None, None, None, 0, None));
+        struct H {
+            helper_ret: c_int,
+            helper_read: Option<String>,
+        }
+        let h = H { helper_ret: h_ret, helper_read: h_read };
+        ctx.evaluations += 1;
+        ctx.count("callback_helper_cases");
+        ctx.cover(&format!("callback-helper|{}|k{}", mode, k1));
+        let helper_want = if mode == 0 { DSError::VoidRecord.to_string() } else { want[0].clone() };
+        if h.helper_ret != -1 {
+            ctx.count("harness_error");
+            ctx.notes.push(format!("harness: C16 callback-helper mode {}: the helper's call did not fail ({})", mode, h.helper_ret));
+            continue;
+        }
+        if mine.as_deref() != Some(want[k1].as_str()) || again != mine || (kept.is_some() && kept != Some(mine.clone())) {
+            ctx.violation(
+                "C16",
+                "callback-helper|iterating-thread-description-changed".into(),
+                format!("the iterating thread failed with {:?} before the walk; a helper thread then failed through the cursor (mode {}) while it waited in its callback; afterwards it reads {:?} (kept pointer {:?})", mine, mode, again, kept),
+                &[],
+            );
+        }
+        if h.helper_read.as_deref() != Some(helper_want.as_str()) {
+            ctx.violation(
+                "C16",
+                "callback-helper|helper-reads-wrong-description".into(),
+                format!("the helper thread's failing call (mode {}) reads {:?}, its failure says {:?}", mode, h.helper_read, helper_want),
+                &[],
+            );
+        }
+    }
     // (b) free-running stress
     let nthreads = if ctx.tier == "miri" { 3 } else { 16 };
     let steps = if ctx.tier == "miri" { 24 } else { ctx.scaled(if thorough { 400_000 } else if ctx.tier == "tsan" { 4_000 } else { 40_000 }) as usize };
